@@ -64,7 +64,7 @@ func cutIdentifier(s string) (identifier, rest string, more bool) {
 
 // compareIdentifier compares two identifiers: numeric ones numerically and lower than alphanumeric ones,
 // alphanumeric ones in ASCII order. Alphanumeric identifiers that differ only in a trailing run of digits
-// are compared by the numeric value of these digits (i.e. a01 is equal to a1).
+// are compared by the numeric value of these digits (i.e. a01 is equal to a1 and rc9 is lower than rc10).
 func compareIdentifier(x, y string) int {
 	if x == y {
 		return 0
@@ -79,14 +79,20 @@ func compareIdentifier(x, y string) int {
 	if yNumeric {
 		return 1
 	}
-	i := 0
-	for i < len(x) && i < len(y) && x[i] == y[i] {
-		i++
-	}
-	if digitsOrEmpty.MatchString(x[i:]) && digitsOrEmpty.MatchString(y[i:]) {
-		return compareDigits(x[i:], y[i:])
+	i, j := trailingDigits(x), trailingDigits(y)
+	if x[:i] == y[:j] {
+		return compareDigits(x[i:], y[j:])
 	}
 	return strings.Compare(x, y)
+}
+
+// trailingDigits returns the index where the trailing run of digits of s starts.
+func trailingDigits(s string) int {
+	i := len(s)
+	for i > 0 && s[i-1] >= '0' && s[i-1] <= '9' {
+		i--
+	}
+	return i
 }
 
 // compareDigits compares two strings of digits by their numeric value (of any length).
